@@ -1,15 +1,18 @@
 import CTV.Props.C09
+import CTV.Model.TlsSpec
 /-!
 # C09: the hand model of the codec follows the check sequences regenerated from tls/tls.go
 
-`Gen.readVarUintBody`, `Gen.parseSliceHead`, `Gen.parseArrayBody`, `Gen.parseEnumBody`, `Gen.unmarshalWithParamsBody`,
+`Gen.readVarUintBody`, `Gen.parseSliceBody`, `Gen.parseArrayBody`, `Gen.parseEnumBody`, `Gen.unmarshalWithParamsBody`,
 `Gen.marshalWithParamsBody` are whole bodies (resp. whole `case` clauses of `parseField`'s kind switch) translated statement
 by statement on every run (extract/k_tls.go): the order of the tests, whether an error is returned, and — for the vector
-case — whether `reflect.MakeSlice` has been called on the way.  The theorems say that `Tls.readVar`, `Tls.readPrefixed`,
+case — whether `reflect.MakeSlice` has been called on the way and whether the element loop returns.  The proofs go through the
+reference copies `Spec.*` (`CTV/Model/TlsSpec.lean`, `Gen.X_eq_spec`), so they do not depend on how the Go source spells the
+same decisions.  The theorems say that `Tls.readVar`, `Tls.readPrefixed`,
 `Tls.dec` on arrays and enums and `Tls.unmarshalWithParams` / `marshalWithParams` refuse exactly when those bodies do, on
 the facts the model computes.  `Info.check`, `byteCount` and the final tag checks need no tie: the model *calls* the
 regenerated kernels.  Not regenerated (reflective / loops, tied by the correspondence run only): the struct case with
-its selector bookkeeping, the element loop of the vector case, `marshalField`'s cases, the clause loop of
+its selector bookkeeping, the body of the vector case's element loop (the loop as a whole is the input `elemFails`), `marshalField`'s cases, the clause loop of
 `fieldTagToFieldInfo` (its final checks are).
 -/
 set_option linter.unusedSimpArgs false
@@ -20,12 +23,18 @@ def failed {α : Type} : Except Err α → Bool
   | .ok _ => false
   | .error _ => true
 
-/-- `readVarUint`: no size information → truncated input → `check`, in this order; `Tls.readVar` refuses exactly then. -/
+/-- `readVarUint`: no size information → truncated input → `check`, in this order; `Tls.readVar` refuses exactly then (a model
+`Info` with `countSet = false` stands for both a missing tag and a tag without a size). -/
 theorem readVar_tie (i : Info) (bs : Bytes) :
     failed (readVar i bs) =
-      (Gen.readVarUintBody (!i.countSet) (decide (bs.length < i.count)) (!(i.check (beDec (bs.take i.count))))).2 := by
-  unfold readVar Gen.readVarUintBody
+      (Gen.readVarUintBody false (!i.countSet) (decide (bs.length < i.count)) (!(i.check (beDec (bs.take i.count))))).2 := by
+  rw [Gen.readVarUintBody_eq_spec]
+  unfold readVar Spec.readVarUintBody
   cases i.countSet <;> by_cases h : bs.length < i.count <;> cases hc : i.check (beDec (bs.take i.count)) <;> simp [failed, h, hc]
+
+/-- a nil `*fieldInfo` is refused before anything is read -/
+theorem readVar_nil_refused (noCount short checkFails : Bool) : Gen.readVarUintBody true noCount short checkFails = (0, true) := by
+  rw [Gen.readVarUintBody_eq_spec]; simp [Spec.readVarUintBody]
 
 /-- the declared length of a vector, as the model sees it after a readable prefix -/
 def tooLong (i : Info) (bs : Bytes) : Bool :=
@@ -33,11 +42,18 @@ def tooLong (i : Info) (bs : Bytes) : Bool :=
   | .ok (n, rest) => decide (rest.length < n)
   | .error _ => false
 
-/-- `parseField`, vector case up to the element loop: `Tls.readPrefixed` refuses exactly when the regenerated clause returns an error
+/-- does the element loop of the model return an error on the vector's body -/
+def elemFails (i : Info) (e : Ty) (bs : Bytes) : Bool :=
+  match readPrefixed i bs with
+  | .ok (body, _) => failed (decListWith (dec e) (body.length + 1) body)
+  | .error _ => false
+
+/-- `parseField`, vector case before the element loop: `Tls.readPrefixed` refuses exactly when the regenerated clause returns an error
 (unreadable / out-of-range prefix, then declared length beyond the remaining input) — for byte strings and other vectors alike. -/
 theorem slice_tie (i : Info) (bs : Bytes) (isBytes : Bool) :
-    failed (readPrefixed i bs) = (Gen.parseSliceHead (failed (readVar i bs)) (tooLong i bs) isBytes).2.1 := by
-  unfold readPrefixed Gen.parseSliceHead tooLong
+    failed (readPrefixed i bs) = (Gen.parseSliceBody (failed (readVar i bs)) (tooLong i bs) isBytes false).2.1 := by
+  rw [Gen.parseSliceBody_eq_spec]
+  unfold readPrefixed Spec.parseSliceBody tooLong
   cases h : readVar i bs with
   | error e => simp [failed]
   | ok p =>
@@ -48,16 +64,59 @@ theorem slice_tie (i : Info) (bs : Bytes) (isBytes : Bool) :
     · have : rest.length < n := by omega
       simp [failed, hn, this]
 
+/-- what the two head tests of the vector clause say, in terms of `Tls.readPrefixed` -/
+theorem prefix_facts (i : Info) (bs : Bytes) :
+    (∃ err, readPrefixed i bs = .error err ∧ (failed (readVar i bs) || tooLong i bs) = true) ∨
+    (∃ p, readPrefixed i bs = .ok p ∧ failed (readVar i bs) = false ∧ tooLong i bs = false) := by
+  unfold readPrefixed tooLong
+  cases h : readVar i bs with
+  | error e => simp [failed]
+  | ok p =>
+    obtain ⟨n, rest⟩ := p
+    by_cases hn : n ≤ rest.length
+    · have : ¬ rest.length < n := by omega
+      simp [failed, hn, this]
+    · have : rest.length < n := by omega
+      simp [failed, hn, this]
+
+/-- **byte strings, whole clause**: `Tls.dec (.bytes i)` refuses exactly when the regenerated vector clause does on the `[]byte` path
+(the element loop is not reached, whatever it would do) -/
+theorem bytes_tie (i : Info) (bs : Bytes) (ef : Bool) :
+    failed (dec (.bytes i) bs) = (Gen.parseSliceBody (failed (readVar i bs)) (tooLong i bs) true ef).2.1 := by
+  rw [Gen.parseSliceBody_eq_spec]
+  unfold Spec.parseSliceBody
+  rcases prefix_facts i bs with ⟨err, hp, hf⟩ | ⟨p, hp, h1, h2⟩
+  · simp only [dec, hp]
+    cases h1 : failed (readVar i bs) <;> cases h2 : tooLong i bs <;> simp_all [failed]
+  · obtain ⟨body, rest⟩ := p
+    simp only [dec, hp, h1, h2]
+    simp [failed]
+
+/-- **vectors, whole clause**: `Tls.dec (.vec i e)` refuses exactly when the regenerated clause does — prefix, declared length, then the
+element loop (`elemFails`: an element that does not decode, or one of zero width — `noProgress` in the model) -/
+theorem vec_tie (i : Info) (e : Ty) (bs : Bytes) :
+    failed (dec (.vec i e) bs) = (Gen.parseSliceBody (failed (readVar i bs)) (tooLong i bs) false (elemFails i e bs)).2.1 := by
+  rw [Gen.parseSliceBody_eq_spec]
+  unfold Spec.parseSliceBody elemFails
+  rcases prefix_facts i bs with ⟨err, hp, hf⟩ | ⟨p, hp, h1, h2⟩
+  · simp only [dec, hp]
+    cases h1 : failed (readVar i bs) <;> cases h2 : tooLong i bs <;> simp_all [failed]
+  · obtain ⟨body, rest⟩ := p
+    simp only [dec, hp, h1, h2]
+    cases hd : decListWith (dec e) (body.length + 1) body <;> simp [failed, hd]
+
 /-- **The allocation comes after the length test** (regenerated order): whenever the vector clause has called
 `reflect.MakeSlice`, the length prefix was readable and in range and the declared length fits the remaining input. -/
-theorem alloc_after_length_test (prefixBad tooLong isBytes : Bool)
-    (h : (Gen.parseSliceHead prefixBad tooLong isBytes).2.2 = true) : prefixBad = false ∧ tooLong = false := by
-  revert h; cases prefixBad <;> cases tooLong <;> cases isBytes <;> simp [Gen.parseSliceHead]
+theorem alloc_after_length_test (prefixBad tooLong isBytes elemFails : Bool)
+    (h : (Gen.parseSliceBody prefixBad tooLong isBytes elemFails).2.2 = true) : prefixBad = false ∧ tooLong = false := by
+  rw [Gen.parseSliceBody_eq_spec] at h
+  revert h; cases prefixBad <;> cases tooLong <;> cases isBytes <;> cases elemFails <;> simp [Spec.parseSliceBody]
 
 /-- byte arrays: truncated input is the only refusal (`Tls.dec (.arr k)`), a non-byte array is refused whatever the input (`Ty.bad`) -/
 theorem array_tie (k : Nat) (bs : Bytes) :
     failed (dec (.arr k) bs) = (Gen.parseArrayBody (decide (bs.length < k)) false).2 := by
-  unfold Gen.parseArrayBody
+  rw [Gen.parseArrayBody_eq_spec]
+  unfold Spec.parseArrayBody
   by_cases h : k ≤ bs.length
   · have : ¬ bs.length < k := by omega
     simp [dec, failed, h, this]
@@ -65,10 +124,12 @@ theorem array_tie (k : Nat) (bs : Bytes) :
     simp [dec, failed, h, this]
 
 theorem array_nonbyte_refused (tooLong : Bool) : (Gen.parseArrayBody tooLong true).2 = true ∧ ∀ bs, failed (dec .bad bs) = true := by
-  cases tooLong <;> simp [Gen.parseArrayBody, dec, failed]
+  rw [Gen.parseArrayBody_eq_spec]
+  cases tooLong <;> simp [Spec.parseArrayBody, dec, failed]
 
 theorem enum_tie (i : Info) (bs : Bytes) : failed (dec (.enum i) bs) = (Gen.parseEnumBody (failed (readVar i bs))).2 := by
-  unfold Gen.parseEnumBody
+  rw [Gen.parseEnumBody_eq_spec]
+  unfold Spec.parseEnumBody
   cases h : readVar i bs <;> simp [dec, failed, h]
 
 /-- `UnmarshalWithParams`: a bad parameter tag, then whatever `parseField` says -/
@@ -76,26 +137,31 @@ theorem unmarshal_tie (g : GoTy) (params : List Char) (bs : Bytes) :
     failed (unmarshalWithParams g params bs) =
       (Gen.unmarshalWithParamsBody (failed (resolveTop g params))
         (match resolveTop g params with | .ok t => failed (dec t bs) | .error _ => false)).2 := by
-  unfold unmarshalWithParams Gen.unmarshalWithParamsBody
+  rw [Gen.unmarshalWithParamsBody_eq_spec]
+  unfold unmarshalWithParams Spec.unmarshalWithParamsBody
   cases h : resolveTop g params with
   | error e => simp [failed]
   | ok t => cases hd : dec t bs <;> simp [failed, hd]
 
-/-- `MarshalWithParams` hands back bytes exactly when the tag is good and `marshalField` succeeds (first component of the
-regenerated body; its final `return out.Bytes(), err` returns the — then nil — variable `err`, which the translation
-cannot see, so only the first component is used) -/
+/-- `MarshalWithParams` hands back bytes and no error exactly when the tag is good and `marshalField` succeeds (both components of the
+regenerated body: its final `return out.Bytes(), err` returns an `err` that is known to be nil on that path) -/
 theorem marshal_tie (g : GoTy) (params : List Char) (v : Val) :
-    (if failed (marshalWithParams g params v) then 0 else 1) =
-      (Gen.marshalWithParamsBody (failed (resolveTop g params))
-        (match resolveTop g params with | .ok t => failed (enc t v) | .error _ => false)).1 := by
-  unfold marshalWithParams Gen.marshalWithParamsBody
+    ((if failed (marshalWithParams g params v) then 0 else 1), failed (marshalWithParams g params v)) =
+      Gen.marshalWithParamsBody (failed (resolveTop g params))
+        (match resolveTop g params with | .ok t => failed (enc t v) | .error _ => false) := by
+  rw [Gen.marshalWithParamsBody_eq_spec]
+  unfold marshalWithParams Spec.marshalWithParamsBody
   cases h : resolveTop g params with
   | error e => simp [failed]
   | ok t => cases hd : enc t v <;> simp [failed, hd]
 
-example : Gen.parseSliceHead false false true = (0, false, true) ∧ Gen.parseSliceHead false true false = (0, true, false)
-    ∧ Gen.parseSliceHead false false false = (2, false, true) := by decide
+example : Gen.parseSliceBody false false true false = (0, false, true) ∧ Gen.parseSliceBody false true false false = (0, true, false)
+    ∧ Gen.parseSliceBody false false false true = (0, true, true) ∧ Gen.parseSliceBody true false false false = (0, true, false) := by
+  rw [Gen.parseSliceBody_eq_spec]; decide
 example : failed (readPrefixed ⟨1, 0, 255, true⟩ [5, 1, 2]) = true ∧ tooLong ⟨1, 0, 255, true⟩ [5, 1, 2] = true := by decide
-example : Gen.readVarUintBody false true false = (0, true) ∧ Gen.readVarUintBody false false false = (1, false) := by decide
+example : elemFails ⟨1, 0, 255, true⟩ (.uint 2) [3, 1, 2, 3] = true ∧ elemFails ⟨1, 0, 255, true⟩ (.uint 2) [2, 1, 2, 3] = false := by decide
+example : Gen.readVarUintBody false false true false = (0, true) ∧ Gen.readVarUintBody false false false false = (1, false)
+    ∧ Gen.marshalWithParamsBody false false = (1, false) := by
+  rw [Gen.readVarUintBody_eq_spec, Gen.marshalWithParamsBody_eq_spec]; decide
 
 end C09Tie
